@@ -289,7 +289,7 @@ def check_case(case):
         tad = r.tad
         g = copy_game(game)
         try:
-            with sweep_budget(tad, None, None):
+            with sweep_budget(tad, 600000, len(game["players"])):
                 sg = tad.StochasticGame(**g)
                 sg.check_game()
                 state_list = sg.init_states()
@@ -297,7 +297,8 @@ def check_case(case):
                 strat, _ = solver.solve_reachability(g["transition_list"], g["final_states"], False)
                 phat = [s.reach_probability for s in state_list]
         except BudgetExceeded:
-            raise
+            v.inconclusive = "reachability loop still running after 600000 sweeps"
+            return v
         except Exception as e:
             o = classify_exception(e)
             v.fail("solver-raises", o.brief(), sig=f"{type(e).__name__}@{o.where}")
